@@ -198,7 +198,8 @@ def r2(F, R):
 def r3(F, R):
     R.rule("C13-R3", "the worker's retry loop keeps the last set_position error and returns it; the worker's result is sent on the results channel")
     sc = scope(F)
-    workers = [F.bodies[p] for p, r in sc.items() if r == "worker"]
+    from . import inline as IN
+    workers = [IN.inlined(F, F.bodies[p], IN.sampler_helper) for p, r in sc.items() if r == "worker"]
     sent = False
     for b in workers:
         # the closure whose result (from calling the inner closure) is forwarded to Sender::send
@@ -213,7 +214,7 @@ def r3(F, R):
             c = t["callee"]
             if "path" in c and path_ends(c["path"], "Chain::set_position"):
                 outs = E.classify(b, t["dest"]["l"])
-                good = [o for o in outs if o.kind == "handled" and "return" in o.detail]
+                good = [o for o in outs if (o.kind == "handled" and ("return" in o.detail or "branch" in o.detail)) or o.kind in ("propagated", "returned")]
                 key = b.path + ":set_position"
                 site = "%s @%s" % (b.path, loc(t["span"]))
                 if good:
